@@ -168,7 +168,8 @@ Definition unop_apply (op : unop) (v : wval) : wval :=
             | Complement => lnot128 (bits v)
             | Not => if negb (bits v =? 0) then 0 else 1
             end in
-  mkV (N.land nv (mask (wd v))) (match op with Not => Bits 1 | _ => wd v end).
+  let nw := match op with Not => Bits 1 | _ => wd v end in
+  mkV (N.land nv (mask nw)) nw.
 
 (* ---- SpannedExpr::evaluated_width: the width evaluate() will produce ------------------- *)
 Definition or_else (o : option width) (d : width) : width := match o with Some w => w | None => d end.
